@@ -31,6 +31,7 @@ RULE = (
 )
 RULE += " " + "Added after the seeding rounds: a complete grid of small boundary constructions (an escaped-on-save token 0..3 characters before offset 256..8192 of the value or of the whole text), key/value pairs that coincide when glued or printed (a colon moved between key and value, None / 'None'), U+FEFF inside keys and values."
 RULE += " " + 'Round 6: the boundary grid also uses round decimal sizes (500, 1000, 2000, 4000, 10000).'
+RULE += " " + 'Round 7: first keys that start with VERSION followed by a metacharacter (VERSION/2, VERSION:, VERSION;X); values with a blank-only line.'
 ASSUMPTIONS = [
     "msdparser.parse_msd is the trusted tokenizer",
     "values inside msdparser's escaping gap (DESIGN.md 4.1) are outside the domain (known findings, probed on every run)",
